@@ -2083,6 +2083,7 @@ func (e *Extractor) extractPreserveLayout(fragments []text.TextFragment, pageWid
 		defaultCharsPerLine = 80  // Default width in characters
 		minCharsPerLine     = 40  // Minimum width
 		maxCharsPerLine     = 200 // Maximum width
+		maxGapLines         = 100 // Most blank lines written for one vertical gap
 	)
 
 	// Calculate character width based on page width and desired output width
@@ -2196,6 +2197,12 @@ func (e *Extractor) extractPreserveLayout(fragments []text.TextFragment, pageWid
 			if gapInLines < 1 {
 				gapInLines = 1
 			}
+			// The gap is a difference of positions divided by a font size, both
+			// from the content stream: (Hello) at y = 1e14, or a font size of
+			// 1e-9, asked for 10^13 newlines and Text() never returned.
+			if gapInLines > maxGapLines {
+				gapInLines = maxGapLines
+			}
 
 			// Add newlines (1 for normal line break, more for vertical gaps)
 			for i := 0; i < gapInLines; i++ {
@@ -2214,6 +2221,14 @@ func (e *Extractor) extractPreserveLayout(fragments []text.TextFragment, pageWid
 			targetCol := int(frag.X / charWidth)
 			if targetCol < 0 {
 				targetCol = 0
+			}
+			// The page is laid out on at most maxCharsPerLine columns; a position
+			// beyond that is off the page. The column sizes the padding below:
+			// x = 1e14, or a /MediaBox 1e-9 wide (which makes charWidth tiny),
+			// asked strings.Repeat for terabytes and the process died with
+			// "fatal error: runtime: out of memory".
+			if targetCol > maxCharsPerLine {
+				targetCol = maxCharsPerLine
 			}
 
 			// Add spaces to reach target column
